@@ -159,11 +159,242 @@ def liveness_part(ctx, observations, stats):
         detail = {"program": o["prog"], "config": f"venom-{o['level']}-cancun", "function": o["fn"], "requested_during": o["phase"],
                   "ir_text": o["text"][:8000], "call": "LivenessAnalysis(ac, fn).analyze(); live_vars_at(inst) / out_vars(bb)"}
         if missing:
+            # known shape: the variable is also a phi operand (for another predecessor) of the block it is live through
+            phi_ops = {op.value for bb in fn.get_basic_blocks() for i in bb.instructions if i.opcode == "phi"
+                       for _, op in i.phi_operands}
+            key = "C14:liveness-phi-operand-live-through" if set(missing["missing"]) <= phi_ops else f"C14:liveness-miss:{o['prog']}"
             ctx.violation("failing-input", f"LivenessAnalysis misses a live variable in {o['fn']} of {o['prog']} "
                           f"(block {missing['block']}): {missing['missing'][:4]}",
                           dict(detail, witness=missing, expected="every variable read on some path before being redefined is in the table"),
-                          key=f"C14:liveness-miss:{o['prog']}")
+                          key=key)
         else:
             ctx.violation("correspondence-broken", f"live_check rejects the LivenessAnalysis table of {o['fn']} of {o['prog']} although it "
                           "contains the least solution", detail, key=f"C14:liveness-reject:{o['prog']}")
     return len(exprs)
+
+
+# ------------------------------------------------------------------------------------------------ pass validators
+STATIC_ALL = ["C14/VenomSim.v", "C14/ValRUV.v", "C14/ValDFT.v", "C14/ValCopy.v", "C14/Liveness.v"]
+PASS_VALIDATOR = {"RemoveUnusedVariablesPass": "ruv", "AssignElimination": "copy", "SingleUseExpansion": "copy", "DFTPass": "dft"}
+THEOREM = {"ruv": "ruv_check_sound", "copy": "copy_check_sound", "dft": "dft_check_sound / dft_check_observe"}
+
+
+def _parse_one(text):
+    try:
+        ctx = X.parse(text)
+    except Exception:  # noqa
+        return None
+    fns = list(ctx.functions.values())
+    return (fns[0], ctx) if len(fns) == 1 else None
+
+
+def _is_copy(inst):
+    from vyper.venom.basicblock import IRLabel, IRVariable
+    if inst.opcode != "assign" or len(inst.get_outputs()) != 1 or len(inst.operands) != 1:
+        return None
+    o = inst.operands[0]
+    if isinstance(o, IRLabel):
+        return None
+    x = inst.get_outputs()[0]
+    if isinstance(o, IRVariable) and o.value == x.value:
+        return None
+    return (x.value, o)
+
+
+def _copies_in(fn):
+    """forward must-analysis of the copies that hold at block entry (the certificate of coq/C14/ValCopy.v; it is
+    re-checked there, so nothing here is trusted).  Only copies whose target is read in another block are tracked."""
+    from vyper.venom.basicblock import IRLabel, IRVariable
+    blocks = list(fn.get_basic_blocks())
+    lab = {bb.label.value: bb for bb in blocks}
+    def_block, used_blocks = {}, {}
+    for bb in blocks:
+        for inst in bb.instructions:
+            for o in inst.get_outputs():
+                def_block.setdefault(o.value, set()).add(bb.label.value)
+            for op in inst.operands:
+                if isinstance(op, IRVariable):
+                    used_blocks.setdefault(op.value, set()).add(bb.label.value)
+    cross = {v for v, bs in used_blocks.items() if bs - def_block.get(v, set())}
+    # closed under "source of a tracked copy" so that chains of copies can be followed across blocks
+    src = {}
+    for bb in blocks:
+        for inst in bb.instructions:
+            c = _is_copy(inst)
+            if c is not None and isinstance(c[1], IRVariable):
+                src.setdefault(c[0], set()).add(c[1].value)
+    work = list(cross)
+    while work:
+        for y in src.get(work.pop(), ()):
+            if y not in cross:
+                cross.add(y)
+                work.append(y)
+
+    def key(o):
+        return ("v", o.value) if isinstance(o, IRVariable) else ("l", int(o.value))
+
+    def transfer(inset, bb):
+        cur = dict(inset)
+        for inst in bb.instructions:
+            outs = {o.value for o in inst.get_outputs()}
+            if outs:
+                cur = {x: o for x, o in cur.items() if x not in outs and not (o[0] == "v" and o[1] in outs)}
+            c = _is_copy(inst)
+            if c is not None and inst.opcode != "phi" and c[0] in cross:
+                cur[c[0]] = key(c[1])
+        return cur
+
+    succ = {}
+    for bb in blocks:
+        t = bb.instructions[-1] if bb.instructions else None
+        succ[bb.label.value] = [op.value for op in t.operands if isinstance(op, IRLabel) and op.value in lab] \
+            if t is not None and t.opcode in ("jmp", "jnz", "djmp") else []
+    TOP = None
+    ins = {l: TOP for l in lab}
+    ins[fn.entry.label.value] = {}
+    work = [fn.entry.label.value]
+    while work:
+        l = work.pop()
+        out = transfer(ins[l], lab[l])
+        for t in succ[l]:
+            if t == fn.entry.label.value:
+                new = {}
+            elif ins[t] is TOP:
+                new = dict(out)
+            else:
+                new = {x: o for x, o in ins[t].items() if out.get(x) == o}
+            if ins[t] is TOP or new != ins[t]:
+                ins[t] = new
+                work.append(t)
+    return {l: (v if v is not TOP else {}) for l, v in ins.items()}
+
+
+def _copy_cert(fb, fa, namer):
+    """-> (coq term for the list of non-agreeing variables, coq term for the certificate)"""
+    def defs(fn):
+        return {o.value for bb in fn.get_basic_blocks() for i in bb.instructions for o in i.get_outputs()}
+    db, da = defs(fb), defs(fa)
+    nu = sorted((db - da) | (da - db))
+    var = lambda n: namer.var_ix.setdefault(n, len(namer.var_ix) + 1)   # noqa
+    cb, ca = _copies_in(fb), _copies_in(fa)
+
+    def avs(d):
+        items = []
+        for x, o in sorted(d.items()):
+            items.append(f"({var(x)}%positive, " + (f"OVar {var(o[1])}" if o[0] == "v" else f"OLit {hex(o[1] % X.W)}") + ")")
+        return "[" + "; ".join(items) + "]"
+    rows = []
+    for l in sorted(set(cb) | set(ca)):
+        li = namer.lab_ix.setdefault(l, len(namer.lab_ix) + 1)
+        rows.append(f"({li}%positive, ({avs(cb.get(l, {}))}, {avs(ca.get(l, {}))}))")
+    return "[" + "; ".join(str(var(n)) for n in nu) + "]%positive", "cert_of [" + ";\n  ".join(rows) + "]"
+
+
+def _classify_reject(kind, fb, fa):
+    """a rejected pair outside the validator's domain is `unsupported` (reported as a count, never as a violation)"""
+    from vlib.c14_pass_export import SIMPLE, ENV
+    if kind == "ruv":
+        def multiset(fn):
+            d = {}
+            for bb in fn.get_basic_blocks():
+                for i in bb.instructions:
+                    d[str(i).strip()] = d.get(str(i).strip(), 0) + 1
+            return d
+        mb, ma = multiset(fb), multiset(fa)
+        for bb in fb.get_basic_blocks():
+            for i in bb.instructions:
+                k = str(i).strip()
+                if mb.get(k, 0) > ma.get(k, 0) and i.opcode not in SIMPLE + ENV + ["phi", "alloca", "offset", "initial_fmp"]:
+                    return "unsupported"       # an out-of-core instruction was removed
+        return "rejected"
+    if kind == "copy":
+        pb = [str(i).strip() for bb in fb.get_basic_blocks() for i in bb.instructions if i.opcode == "phi"]
+        pa = [str(i).strip() for bb in fa.get_basic_blocks() for i in bb.instructions if i.opcode == "phi"]
+        return "unsupported" if pb != pa else "rejected"       # phi operands rewritten (copy at the end of the predecessor)
+    return "rejected"
+
+
+def validators_part(ctx, progs, stats):
+    """-> (number of evaluations, list of snapshots the validators did not accept, for the vrun differential)"""
+    import concurrent.futures as cf
+    rnd = ctx.rng("c14p-val")
+    quick = ctx.tier == "quick"
+    cands = []
+    for name, pr in sorted(progs.items()):
+        for s in pr["snaps"]:
+            if s["pass"] in PASS_VALIDATOR and s["fn"] != "<ctx>":
+                cands.append(s)
+    if quick:
+        # budget per validated pass class: invocations on `runtime` of seeded programs first (that is where pass bugs show),
+        # then the small functions; every invocation of a pass stage 1 has localised a behavioural difference to is included
+        rnd.shuffle(cands)
+        per, chosen = {}, []
+        suspects = [s for s in cands if s["pass"] in progs[s["prog"]].get("suspects", ())]
+        for s in suspects[:24]:
+            chosen.append(s)
+        order = sorted(cands, key=lambda s: (s["fn"] != "runtime", progs[s["prog"]]["entry"].get("prio", 1) if s["fn"] == "runtime" else 0))
+        for s in order:
+            k = (s["pass"], s["fn"] == "runtime")
+            if per.get(k, 0) < (7 if s["fn"] == "runtime" else 4) and s not in chosen:
+                per[k] = per.get(k, 0) + 1
+                chosen.append(s)
+        cands = chosen
+    groups = {}
+    for s in cands:
+        groups.setdefault((s["prog"], s["level"], s["fn"]), []).append(s)
+    jobs = []
+    for gk, ss in sorted(groups.items()):
+        namer = X.Namer()
+        defs, exprs, meta = {}, [], []
+        for s in sorted(ss, key=lambda s: s["idx"]):
+            pb, pa = _parse_one(s["before"]), _parse_one(s["after"])
+            if pb is None or pa is None:
+                stats["val_parser_rejected"] = stats.get("val_parser_rejected", 0) + 1
+                continue
+            hs = []
+            for (fn, c), k in ((pb, "before"), (pa, "after")):
+                h = X.text_hash(s[k])
+                if h not in defs:
+                    defs[h] = X.export_function(fn, c.data_segment, namer)["term"]
+                hs.append(h)
+            kind = PASS_VALIDATOR[s["pass"]]
+            if kind == "ruv":
+                e = f"ruv_check f_{hs[0]} f_{hs[1]}"
+            elif kind == "dft":
+                e = f"dft_check f_{hs[0]} f_{hs[1]}"
+            else:
+                nu, cert = _copy_cert(pb[0], pa[0], namer)
+                e = f"copy_check (fun x => negb (memp x {nu})) ({cert}) f_{hs[0]} f_{hs[1]}"
+            exprs.append(f"[if {e} then 1 else 0]")
+            meta.append((s, kind, pb[0], pa[0]))
+        if exprs:
+            jobs.append((gk, defs, exprs, meta))
+
+    def run(job):
+        gk, defs, exprs, meta = job
+        imp = ("From Verif Require Import Base.Word256 C14.Venom C14.VenomSim C14.ValRUV C14.ValDFT C14.ValCopy.\n"
+               + "".join(f"Definition f_{h} : func := {t}.\n" for h, t in defs.items()))
+        tag = "c14val_" + X.text_hash("|".join(map(str, gk)))
+        try:
+            return coqrun.eval_zlists(imp, exprs, tag, shard=10 ** 9, timeout=900), None
+        except Exception as e:  # noqa
+            return None, f"{type(e).__name__}: {str(e)[-1200:]}"
+    with cf.ThreadPoolExecutor(max_workers=3 if quick else 6) as ex:
+        results = list(ex.map(run, jobs))
+    rejected = []
+    per = stats.setdefault("validators", {})
+    n = 0
+    for (gk, defs, exprs, meta), (outs, err) in zip(jobs, results):
+        if err is not None:
+            ctx.violation("correspondence-broken", f"Coq evaluation of the pass validators failed for {gk}", {"error": err})
+            continue
+        for (s, kind, fb, fa), o in zip(meta, outs):
+            n += 1
+            d = per.setdefault(s["pass"], {"accepted": 0, "unsupported": 0, "rejected": 0})
+            if o and o[0] == 1:
+                d["accepted"] += 1
+            else:
+                c = _classify_reject(kind, fb, fa)
+                d[c] += 1
+                rejected.append(dict(s, verdict=c, validator=kind))
+    return n, rejected
